@@ -682,14 +682,9 @@ impl SymbolicBDD {
     fn parse_negation(tokens: &mut TokenReader) -> io::Result<Self> {
         expect(SymbolicBDDToken::Not, tokens)?;
 
-        let sf = Self::parse_simple_sub_formula(tokens);
-
-        if let Ok(sf_ok) = sf {
-            Ok(Self::Not(Box::new(sf_ok)))
-        } else {
-            // failover if the next part is not a simple formula
-            Ok(Self::Not(Box::new(Self::parse_sub_formula(tokens)?)))
-        }
+        // negation applies to the next simple term; an error in that term is an error of the
+        // formula (re-parsing from the point of failure would accept non-sentences)
+        Ok(Self::Not(Box::new(Self::parse_simple_sub_formula(tokens)?)))
     }
 
     fn parse_parentized_formula(tokens: &mut TokenReader) -> io::Result<Self> {
